@@ -770,6 +770,44 @@ func runC16(c *runCtx) error {
 		}
 	}
 
+	// part B-long: long quoted literals and long words between every pair of symbols / words,
+	// under every spacing (fast paths for long tokens, buffer boundaries, state carried over a
+	// literal); quick tier: one length per (left, right, quote) round-robin, thorough: all
+	{
+		lens := []int{15, 16, 17, 32, 64, 257}
+		body := func(n int) string {
+			b := make([]byte, n)
+			for i := range b {
+				b[i] = "2024-01-01T00:00:00Z abc=<>!^~"[i%30]
+			}
+			return string(b)
+		}
+		neigh := append([]c16Lexeme{c16Word("a"), c16Word("12"), c16Word("in")}, c16FullPool[17:]...)
+		quotes := []byte{'\'', '"', '`'}
+		k := 0
+		for _, a := range neigh {
+			for _, b := range neigh {
+				for _, q := range quotes {
+					k++
+					for li, L := range lens {
+						if !c.thorough() && k%len(lens) != li {
+							continue
+						}
+						run.spacings("B-long", []c16Lexeme{a, c16Quote(q, body(L)), b}, "", "")
+					}
+				}
+			}
+			for li, L := range lens {
+				if !c.thorough() && li%2 == 1 {
+					continue
+				}
+				w := strings.Repeat("ab1_", L/4+1)[:L]
+				run.spacings("B-long", []c16Lexeme{a, c16Word(w), a}, "", " ")
+				run.emit("B-long", a.text()+strings.Repeat(" ", L)+a.text()+strings.Repeat("\t", L), nil, "")
+			}
+		}
+	}
+
 	// part C: statement corpus, then seeded random
 	for _, q := range c16Corpus {
 		run.emit("C-corpus", q, nil, "")
